@@ -99,7 +99,7 @@ def world():
     SerA = mkser("SerA", (SubclassJSONSerializer,), "c19w.sub")
     SerB = mkser("SerB", (SerA,), "c19w.sub", impl=False)           # inherits SerA's _from_json
     SerC = mkser("SerC", (SerB,), "c19w")
-    NoImpl = mkser("NoImpl", (SubclassJSONSerializer,), "c19w.sub", impl=False)   # K_abstract
+    NoImpl = mkser("NoImpl", (SubclassJSONSerializer,), "c19w.sub", impl=False)   # K_abstract (former C19-b)
     NoImpl2 = mkser("NoImpl2", (NoImpl,), "c19w.sub", impl=False)                 # K_abstract, depth 2
     Plain = type("Plain", (), {"__module__": "c19w.sub"})
     Reg = type("Reg", (), {"__module__": "c19w.sub"})
@@ -118,6 +118,10 @@ def world():
     SerReg = mkser("SerReg", (SubclassJSONSerializer,), "c19w.sub")
     JSONSerializableTypeRegistry().register(SerReg, reg_ser, reg_deser)
     setattr(sub, "SerReg", SerReg)
+    # abstract (no _from_json) AND registered: K_abstract_registered
+    NoImplReg = mkser("NoImplReg", (SubclassJSONSerializer,), "c19w.sub", impl=False)
+    JSONSerializableTypeRegistry().register(NoImplReg, reg_ser, reg_deser)
+    setattr(sub, "NoImplReg", NoImplReg)
     for k, v in dict(SerA=SerA, SerB=SerB, NoImpl=NoImpl, NoImpl2=NoImpl2, Plain=Plain, Reg=Reg, RegSub=RegSub, Meta=Meta,
                      WithMeta=WithMeta, Alias=SerA, func=lambda: None, T=TypeVar("T"), const=5, none=None,
                      instance=SerA(), text="c19w.sub.SerA", lst=[SerA], UUID=uuid.UUID).items():
@@ -297,7 +301,7 @@ def tag_table(tier: str, seed: int) -> List[dict]:
              "__main__.x", "__main__.__name__", "CON.x", "nul.x", "x" * 3000 + ".y", "os." + "y" * 3000]
     # objects of every kind in the harness world and in the standard library
     names = ["c19w.sub.SerA", "c19w.sub.SerB", "c19w.SerC", "c19w.sub.NoImpl", "c19w.sub.NoImpl2", "c19w.sub.Plain", "c19w.Plain",
-             "c19w.sub.Reg", "c19w.sub.RegSub", "c19w.sub.SerReg", "c19w.sub.Meta", "c19w.sub.WithMeta", "c19w.sub.Alias", "c19w.sub.func",
+             "c19w.sub.Reg", "c19w.sub.RegSub", "c19w.sub.SerReg", "c19w.sub.NoImplReg", "c19w.sub.Meta", "c19w.sub.WithMeta", "c19w.sub.Alias", "c19w.sub.func",
              "c19w.sub.T", "c19w.sub.const", "c19w.sub.none", "c19w.sub.instance", "c19w.sub.text", "c19w.sub.lst", "c19w.sub.UUID",
              "c19w.sub.é", "c19w.sub.a b", "c19w.sub.", "c19w.sub", "c19w.nosuch.SerA", "c19w.sub.nosuch", "c19w.sub.SerA.x",
              "c19w.sub.SerA._from_json", "c19w.sub.sera", "C19W.sub.SerA", "c19w.sub.__name__", "c19w.sub.__dict__", "c19w.sub.__class__",
@@ -456,10 +460,12 @@ def run(tier: str, seed: int, replay=None) -> int:
             rep.oblige("correspondence:model", False, f"model differs from impl=spec on {d}")
             continue
         # impl != spec
-        # known finding C19-b: narrow match = the class predicate AND the outcome the faithful model predicts
-        # (code 2: impl = model; when the model cannot be built, the prediction recorded with the witness: [30,107])
-        if (code == 2 or not model_ok) and pr["abstract"] and im == [30, PYEXN["NotImplementedError"]]:
-            kf_instances["C19-b"] = kf_instances.get("C19-b", 0) + 1
+        # K_abstract_registered (excluded from C19_identifies_problem, see Example C19_abstract_registered_divergence): an abstract
+        # serialiser class that is also registered gets the documented ClassNotDeserializableError where the Spec's table would
+        # use the registry.  Not a violation of the statement (a documented error is raised); counted, narrow match:
+        # the class predicate AND impl = model = [20,6].
+        if (code == 2 or not model_ok) and pr["abstract"] and pr["regs"] and im == [20, JERR["ClassNotDeserializableError"]]:
+            kf_instances["table-divergence:abstract+registered"] = kf_instances.get("table-divergence:abstract+registered", 0) + 1
             continue
         bad.append((d, pr, im, code))
     rep.extra["distribution"] = dist
